@@ -16,7 +16,7 @@
 #include <stdatomic.h>
 
 enum { E_CREATE = 1, E_SETTIMER, E_REGISTER, E_CONFIGURE, E_RESUME, E_UNREGISTER, E_DRAIN_BEGIN, E_NOW, E_FIRE, E_KARM,
-	E_KDEL, E_SUSP, E_DRAIN_END, E_LATCH, E_HANDLER, E_PLOAD, E_HEAPFLAGS, E_SNAP, E_AFTERRUN };
+	E_KDEL, E_SUSP, E_DRAIN_END, E_LATCH, E_HANDLER, E_PLOAD, E_HEAPFLAGS, E_SNAP, E_AFTERRUN, E_CXCHG };
 struct ev { int kind, t, th; uint64_t a, b, c, d, e; };
 #define MAXLOG (1u << 21)
 static struct ev *LOG;
@@ -133,7 +133,7 @@ bool _dispatch_unote_unregister(dispatch_unote_t du, uint32_t flags)
 }
 void _dispatch_timer_unote_configure(dispatch_timer_source_refs_t dt)
 {
-	lg(E_CONFIGURE, tid_of(dt), (uint64_t)(uintptr_t)dt->dt_pending_config, 0, 0, 0, 0);
+	lg(E_CONFIGURE, tid_of(dt), (uint64_t)(uintptr_t)dt->dt_pending_config, _dispatch_unote_armed(dt) ? 1 : 0, 0, 0, 0);
 	c11_inner_configure(dt);
 }
 void _dispatch_event_loop_drain_timers(dispatch_timer_heap_t dth, uint32_t count)
@@ -165,6 +165,7 @@ static void hook(const volatile void *addr, unsigned size, int kind, int order, 
 		}
 		if (addr == (const volatile void *)&dt->dt_pending_config) {
 			if (kind == DV_XCHG && strstr(file, "source.c")) lg(E_SETTIMER, i + 1, b, a, st_start, st_interval, st_leeway);
+			else if (kind == DV_XCHG) lg(E_CXCHG, i + 1, a, 0, 0, 0, 0); // _dispatch_timer_unote_configure took this configuration
 			return;
 		}
 	}
